@@ -706,10 +706,26 @@ def o_memory(w, tr):
         per = max(per, adj.get('min_size', 0))
         limit = (cfg.max_in_memory_upload_chunks + cfg.max_submission_concurrency) * per
         w.sched.user['max_upload_buffered'] = mx
-        if mx > limit:
+        # (read-minus-sent is a faithful count of live buffers only while every part that was read
+        #  is also sent: in executions where a transfer failed or was cancelled the parts read
+        #  afterwards are dropped unsent - those executions are judged by the liveness clause above)
+        all_ok = all(w.outcomes.get(i['idx'], ('?',))[0] == 'ok' for i in stream_uploads)
+        if mx > limit and all_ok:
             out.append(('C11:upload-buffers',
                         f'{mx} bytes read from user streams and not yet sent; limit '
                         f'({cfg.max_in_memory_upload_chunks}+{cfg.max_submission_concurrency})*{per}={limit}'))
+    # buffers that EXIST (scenarios with track_buffers): chunks handed to the library by the user's
+    # stream that something still references, counted at every later read of the stream
+    for info in stream_uploads:
+        st = info.get('stream')
+        st = getattr(st, '_s_inner', st)
+        if st is not None and getattr(st, 'track', False):
+            lim = cfg.max_in_memory_upload_chunks + cfg.max_submission_concurrency
+            w.sched.user['max_upload_chunks_alive'] = max(st.max_alive, w.sched.user.get('max_upload_chunks_alive', 0))
+            if st.max_alive > lim:
+                out.append(('C11:upload-buffers-alive',
+                            f'transfer {info["idx"]}: {st.max_alive} chunks read from the stream were still held in memory at a later read; '
+                            f'limit {cfg.max_in_memory_upload_chunks}+{cfg.max_submission_concurrency}={lim}'))
     # seekable streams: every part body is one read of the stream into its own buffer, so buffers
     # can be counted exactly (manager-wide): non-empty reads minus finished part requests
     ev = []
@@ -728,7 +744,7 @@ def o_memory(w, tr):
         nb = _intervals_max(ev)
         w.sched.user['max_upload_buffers'] = nb
         lim = cfg.max_in_memory_upload_chunks + cfg.max_submission_concurrency
-        if nb > lim:
+        if nb > lim and all(w.outcomes.get(i['idx'], ('?',))[0] == 'ok' for i in stream_uploads):
             out.append(('C11:upload-buffer-count',
                         f'{nb} part buffers read from seekable streams and not yet sent; limit '
                         f'{cfg.max_in_memory_upload_chunks}+{cfg.max_submission_concurrency}={lim}'))
